@@ -42,7 +42,7 @@ class Frustum(RoundSolidShape):
 
         # TODO: TEST
         diff = np.dot(axis, radius_vector_1)
-        if diff > TOL:
+        if abs(diff) > TOL:
             raise FrustumCreationError(
                 "Axis and radius vectors are not perpendicular", f"Difference: {diff}, tolerance: {TOL}"
             )
